@@ -1,0 +1,11 @@
+// Copyright ©2011-2012 The bíogo Authors. All rights reserved.
+// Use of this source code is governed by a BSD-style
+// license that can be found in the LICENSE file.
+
+//go:build !verif
+// +build !verif
+
+package concurrent
+
+// verifStep is a no-op unless the package is built with the verif tag.
+func verifStep(point string, id int) {}
